@@ -29,6 +29,10 @@ class Budget(BaseException):
     pass
 
 
+class NonDeterministic(Exception):
+    """the harness asked different questions when re-executed with the same decisions: the exploration would be meaningless"""
+
+
 class Engine:
     def __init__(self, timeout=60.0, max_paths=200000):
         self.solver = z3.Solver()
@@ -74,6 +78,17 @@ class Engine:
         self.model = None
 
     # -- branching ------------------------------------------------------------------------------
+    def _next(self, kind):
+        """the recorded decision to replay at this point, or None when exploring new ground.  The decision trail is only valid if the
+        re-execution asks the same kind of question at the same point; anything else means the harness is not deterministic."""
+        i = len(self.trail)
+        if i < len(self.prefix):
+            ent = self.prefix[i]
+            if ent[0] != kind:
+                raise NonDeterministic('replay expected a %r decision, the program asked for %r' % (ent[0], kind))
+            return ent
+        return None
+
     def branch(self, cond):
         """decide a symbolic condition: returns a Python bool, forking when both outcomes are feasible"""
         cond = z3.simplify(_subst(cond))
@@ -81,10 +96,10 @@ class Engine:
             return True
         if z3.is_false(cond):
             return False
-        i = len(self.trail)
-        if i < len(self.prefix):
-            d = self.prefix[i]
-            self.trail.append(d)
+        ent = self._next('b')
+        if ent is not None:
+            d = ent[1]
+            self.trail.append(ent)
             self.solver.add(cond if d else z3.Not(cond))
             _learn_bound(self, cond, d)
             self.model = None
@@ -105,46 +120,64 @@ class Engine:
             self.inconclusive = True
         if ro == z3.sat:
             # both outcomes feasible: follow True now, queue False
-            self.pending.append(self.trail + [False])
+            self.pending.append(self.trail + [('b', False)])
             d = True
             if not here:
                 self.model = self.solver.model()      # the model just found satisfies path and cond
         else:
             d = here
-        self.trail.append(d)
+        self.trail.append(('b', d))
         self.solver.add(cond if d else z3.Not(cond))
         _learn_bound(self, cond, d)
         return d
 
     def quick_equal(self, a, b, ms=400):
         """three-valued equality of two int terms under the path condition with a small solver budget:
-        True (always equal) / False (never equal) / None (both possible, or undecided within the budget -> counted)"""
-        c = z3.simplify(a == b)
+        True (always equal) / False (never equal) / None (both possible, or undecided within the budget -> counted).
+        The outcome is recorded in the decision trail so that re-executions see the same answer (a time-out is not reproducible)."""
+        c = z3.simplify(_subst(a == b))
         if z3.is_true(c):
             return True
         if z3.is_false(c):
             return False
+        ent = self._next('q')
+        if ent is not None:
+            self.trail.append(ent)
+            return ent[1]
         self.solver.set('timeout', ms)
         try:
+            res = None
             r1 = self._check(c)
             if r1 == z3.unsat:
-                return False
-            r2 = self._check(z3.Not(c))
-            if r2 == z3.unsat:
-                return True
-            if r1 == z3.unknown or r2 == z3.unknown:
-                self.undecided_equalities += 1
-                self.unknowns -= (r1 == z3.unknown) + (r2 == z3.unknown)
-            return None
+                res = False
+            else:
+                r2 = self._check(z3.Not(c))
+                if r2 == z3.unsat:
+                    res = True
+                elif r1 == z3.unknown or r2 == z3.unknown:
+                    self.undecided_equalities += 1
+                    self.unknowns -= (r1 == z3.unknown) + (r2 == z3.unknown)
+            self.trail.append(('q', res))
+            return res
         finally:
             self.solver.set('timeout', 20000)
 
     def concretize(self, term):
-        """pick a concrete value for an int term, forking over the alternatives"""
-        term = z3.simplify(term)
+        """pick a concrete value for an int term, forking over the alternatives.  The chosen value is part of the decision trail:
+        a re-execution must ask about the *same* value (a fresh solver model could propose a different one)."""
+        term = z3.simplify(_subst(term))
         if z3.is_int_value(term):
             return term.as_long()
         while True:
+            ent = self._next('c')
+            if ent is not None:
+                v, d = ent[1], ent[2]
+                self.trail.append(ent)
+                self.solver.add(term == v if d else term != v)
+                self.model = None
+                if d:
+                    return v
+                continue
             if self.model is None:
                 r = self._check()
                 if r != z3.sat:
@@ -153,8 +186,14 @@ class Engine:
                     raise PathAbort()
                 self.model = self.solver.model()
             v = self.model.eval(term, model_completion=True).as_long()
-            if self.branch(term == v):
-                return v
+            ro = self._check(term != v)
+            if ro == z3.unknown:
+                self.inconclusive = True
+            if ro == z3.sat:
+                self.pending.append(self.trail + [('c', v, False)])
+            self.trail.append(('c', v, True))
+            self.solver.add(term == v)
+            return v
 
     def assume(self, cond):
         if isinstance(cond, SymBool):
@@ -682,7 +721,7 @@ def explore(fn, timeout=60.0, max_paths=200000, bounds=None):
                 completed += 1
             except PathAbort:
                 aborted += 1
-            except Budget:
+            except (Budget, NonDeterministic):
                 raise
             except BaseException as ex:  # noqa
                 tb = traceback.extract_tb(sys.exc_info()[2])
@@ -709,9 +748,29 @@ def explore(fn, timeout=60.0, max_paths=200000, bounds=None):
                 res = {'state': 'inconclusive', 'detail': 'no path satisfied the preconditions'}
             else:
                 res = {'state': 'discharged', 'detail': 'all %d feasible paths explored, no violation' % completed}
+    except NonDeterministic as nd:
+        res = {'state': 'error', 'detail': 'harness is not deterministic under replay: %s' % nd}
     except Budget:
         res = {'state': 'inconclusive', 'detail': 'budget exhausted after %d paths (%.0fs)' % (e.paths, time.time() - e.t0)}
     finally:
         ENGINE = None
     res.update(undecided_equalities=e.undecided_equalities, paths=e.paths, completed_paths=completed, queries=e.queries, solver_s=round(e.solver_s, 3), engine='symx+z3')
     return res
+
+
+def selftest():
+    """the exploration must visit every point of a small product space exactly once (guards the decision-trail logic)"""
+    seen = []
+
+    def probe(a: int, b: int, c: bool):
+        assume(0 <= a <= 3 and 0 <= b <= 2)
+        x, y = int(b), int(a)
+        if c:
+            seen.append((y, x, True))
+        else:
+            seen.append((y, x, False))
+    r = explore(probe, 30)
+    want = sorted((a, b, c) for a in range(4) for b in range(3) for c in (False, True))
+    if r.get('state') != 'discharged' or sorted(seen) != want:
+        raise RuntimeError('symx selftest failed: %r; visited %d points (%d distinct) of %d' % (r.get('state'), len(seen), len(set(seen)), len(want)))
+    return len(seen)
